@@ -28,21 +28,25 @@ def wire_oracle(d, lan, client_addr, server_addr):
             continue
         if a["type"] in (0, 3) and a["seg"]:
             key = (str(src), a["type"], a["invoke"])
-            s = st.setdefault(key, dict(next=0, count=0, outstanding=set(), window=1, done=False, seen={}))
+            s = st.setdefault(key, dict(next=0, count=0, outstanding=set(), window=1, done=False, seen={}, acked=-1))
             seq = a["seq"]
             if seq in s["seen"] and s["seen"][seq] == (a["mor"], a["payload"]):
-                # retransmission of a segment already sent
-                s["outstanding"].add(seq)
+                # retransmission of a segment already sent: its absolute index is the latest one with that number
+                idx = s["next"] - 1 - ((s["next"] - 1 - seq) % 256)
             else:
                 if seq != s["next"] % 256:
                     d.flag(True, "sequence-not-consecutive", index=i, seq=seq, expected=s["next"] % 256)
                 if s["done"]:
                     d.flag(True, "segment-after-last", index=i, seq=seq)
                 s["seen"][seq] = (a["mor"], a["payload"])
+                idx = s["next"]
                 s["next"] += 1
-                s["outstanding"].add(seq)
                 if not a["mor"]:
                     s["done"] = True
+            # unacknowledged = sent and beyond what the receiver has acknowledged so far (a segment-ack, positive or negative,
+            # acknowledges everything up to its number); a retransmission of an acknowledged segment adds nothing
+            if idx > s["acked"]:
+                s["outstanding"].add(idx)
             if len(s["outstanding"]) > s["window"]:
                 d.flag(True, "window-exceeded", index=i, outstanding=len(s["outstanding"]), window=s["window"])
             if not (1 <= a["win"] <= 127):
@@ -52,8 +56,12 @@ def wire_oracle(d, lan, client_addr, server_addr):
             # srv=1 acks request segments (sent by dst), srv=0 acks response segments
             key = (str(dst), 0 if a["srv"] else 3, a["invoke"])
             s = st.get(key)
-            if s is not None:
-                s["outstanding"] = set()
+            if s is not None and s["next"] > 0:
+                # the latest segment sent so far that carries this number
+                upto = s["next"] - 1 - ((s["next"] - 1 - a["seq"]) % 256)
+                if upto > s["acked"]:
+                    s["acked"] = upto
+                s["outstanding"] = set(x for x in s["outstanding"] if x > s["acked"])
                 s["window"] = a["win"]
             if not (1 <= a["win"] <= 127):
                 d.flag(True, "window-out-of-range", index=i, win=a["win"])
